@@ -48,12 +48,12 @@ type lockedCall struct {
 }
 
 type LockModel struct {
-	Pkg      *packages.Package
-	Type     *types.Named
-	Mutex    *types.Var
-	RW       bool
-	Methods  map[*types.Func]*lockedMethod
-	Guarded  map[*types.Var]bool // fields of Type (and of satellite types) that are mutable after construction
+	Pkg        *packages.Package
+	Type       *types.Named
+	Mutex      *types.Var
+	RW         bool
+	Methods    map[*types.Func]*lockedMethod
+	Guarded    map[*types.Var]bool // fields of Type (and of satellite types) that are mutable after construction
 	Satellites []*types.Named
 }
 
